@@ -1787,13 +1787,17 @@ pub mod verif_hooks {
         }
     }
 
+    /// The transport's end of a service's event channel (kept alive by the harness: a service whose transport end is gone
+    /// reports "closed" instead of serving its keep-alive timers).
+    pub struct EventFeed(#[allow(dead_code)] Sender<InnerTransportEvent>);
+
     /// A service with a chosen keep-alive timeout and keep-alive class (for the keep-alive kernel).
     pub fn new_service_with(
         manager: &mut crate::transport::manager::TransportManager,
         keep_alive_timeout: Duration,
         substream_keep_alive: bool,
-    ) -> TransportService {
-        TransportService::new(
+    ) -> (TransportService, EventFeed) {
+        let (service, tx) = TransportService::new(
             PeerId::random(),
             ProtocolName::from("/verif/keepalive"),
             Vec::new(),
@@ -1801,8 +1805,8 @@ pub mod verif_hooks {
             manager.transport_manager_handle(),
             keep_alive_timeout,
             if substream_keep_alive { SubstreamKeepAlive::Yes } else { SubstreamKeepAlive::No },
-        )
-        .0
+        );
+        (service, EventFeed(tx))
     }
 
     /// Whether this protocol's handles of the peer's connections are active: (primary, secondary).
